@@ -244,3 +244,6 @@ def run(ck, F, tier):
         e.bind(bb.params[0], var("self"), env)
         v = e.eval(bb.value, env)
         ck.inst("B5", "reported:" + m_, v == var("self." + m_) and m_ in fields, bb.span, "Ber::%s() returns the field `%s` computed in new()" % (m_, m_))
+    if tier == "thorough":
+        from ..witness import check_witnesses
+        check_witnesses(ck, "B4", ["W2", "W3"])
